@@ -63,7 +63,7 @@ def gen(rng, tier):
     for _ in range(rng.randint(2, 10 if tier == "quick" else 16)):
         r = rng.random()
         if r < 0.5:
-            ops.append("W:" + g.hx(b"%c%d\n" % (65 + n % 26, n)))
+            ops.append("W:" + g.hx(b"%c%d" % (65 + n % 26, n) + cfg.ending()))      # (the line ending of the configuration in force)
             n += 1
         elif r < 0.54:
             ops.append("F")
@@ -102,7 +102,8 @@ def gen(rng, tier):
                 if not rot2 and cfg.name(b"") in used:
                     cfg.append = True
             else:
-                cfg = g.Cfg(base=rng.choice([b"b", b"c", b"a2"]) + b"%d" % moved, disc=rng.choice([None, b"x"]),
+                # (the new builder may also say another line ending: it is in force for the records after the reset)
+                cfg = g.Cfg(base=rng.choice([b"b", b"c", b"a2"]) + b"%d" % moved, disc=rng.choice([None, b"x"]), crlf=rng.random() < 0.3,
                             crit=("s%d" % rng.choice([6, 40])) if rot2 else None, naming=rng.choice(["num", "ts"]), cap=cap,
                             append=rng.random() < 0.5)
             moved += 1
